@@ -337,7 +337,7 @@ func main() {
 	}
 	verifx.Parallel(len(jobs), func(w, i int) {
 		j := jobs[i]
-		runCase(filepath.Join(dirs[w], "s"), j.c, j.cf, j.ext)
+		runCase(filepath.Join(dirs[w], "s"), j.c, j.cf, j.ext, i%701 == 3)
 	})
 	ev.Finish()
 }
@@ -348,7 +348,7 @@ func safely(f func()) (panicked any) {
 	return nil
 }
 
-func runCase(dir string, c cas, cf config, ext string) {
+func runCase(dir string, c cas, cf config, ext string, sample bool) {
 	os.RemoveAll(dir)
 	os.MkdirAll(dir, 0700) //nolint:errcheck
 	// a healthy admin so that Check has something to accept
@@ -476,7 +476,7 @@ func runCase(dir string, c cas, cf config, ext string) {
 		viol("panic-in-check", "Check panicked: %v", pv)
 	}
 	ev.Distinct(cf.name + "|" + class + "|" + strings.SplitN(c.kind, ":", 2)[len(strings.SplitN(c.kind, ":", 2))-1] + "|" + strings.Join(behaviour, ","))
-	if ev.Get("evaluations")%1500 == 1 {
+	if sample {
 		ev.Sample(map[string]any{"config": cf.name, "kind": c.kind, "content": verifx.Q(c.content), "class": class, "behaviour": behaviour})
 	}
 }
